@@ -20,7 +20,10 @@ m = {
          "kind_free_text": "TLC 1.8 explicit-state model checker: exhaustive bounded models, behaviour export, batch trace judge"},
     ],
     "checks": [],
-    "notes": "All checks: ./check <id> quick|thorough; verdicts are decided by TLC on TLA+ specs under spec/; see DESIGN.md.",
+    "notes": ("All checks: ./check <id> quick|thorough; verdicts are decided by TLC on TLA+ specs under spec/; see DESIGN.md. "
+              "Beyond the listed properties the specification also covers extension areas X01..X06 (ProxyFix, test Client, "
+              "request-body access, Response body states, LintMiddleware, reloader): ./check X0n quick|thorough or "
+              "tools/extras.sh [tier], evidence in evidence_extra/ (DESIGN.md section 12); they are not claims about listed properties."),
     "not_applicable": [],
 }
 for pid in sorted(CHECKS):
